@@ -22,7 +22,7 @@ RULE = ("(a) each evaluation is one call of one request encoder with generated a
         "carries at least one field beyond the header (ApiVersions: always)")
 ASSUMPTIONS = ["topic names are drawn from Kafka's legal ASCII alphabet; group ids, member ids and protocol names are "
                "arbitrary UTF-8 text (protocol type STRING)", "python-snappy absent: codecs exercised are none and gzip",
-               "message timestamps written by create_message come from the wall clock and are not compared"]
+               "timestamps that create_message takes from the wall clock are not compared; timestamps supplied by the caller in Message objects are"]
 REACH_MIN = {"direct_requests": {"quick": 5000, "thorough": 100000}}
 
 BATCH = 120
@@ -68,10 +68,28 @@ def gen_one(rng, it, K, KC, C):
         timeout = G.g_int32(rng)
         payloads = []
         want = {}
+        explicit = rng.random() < 0.4  # caller-built Message objects with explicit (boundary) timestamps
+        want_ts = {}
         for t in G.g_topics(rng, 0, 3):
             for p in G.g_partitions(rng, 0 if rng.random() < 0.2 else 1, 3):
                 reqs = []
                 logical = []
+                if rng.random() < 0.12:
+                    payloads.append(C.ProduceRequest(t, p, []))  # a partition with no message at all
+                    want[(t, p)] = []
+                    continue
+                if explicit:
+                    msgs = []
+                    for _ in range(rng.randint(1, 4)):
+                        key, val = G.g_bytes(rng), G.g_bytes(rng, big=True)
+                        ts = rng.choice((0, -1, 1, 2 ** 63 - 1, 1234567890123, -2 ** 63)) if magic == 1 else None
+                        msgs.append(C.Message(magic, 0, key, val, ts) if magic == 1 else C.Message(0, 0, key, val))
+                        logical.append((magic, key, val))
+                        want_ts.setdefault((t, p), []).append(ts)
+                    msgset = msgs if codec == 0 else [KC.create_gzip_message(msgs, magic)]
+                    payloads.append(C.ProduceRequest(t, p, msgset))
+                    want[(t, p)] = logical
+                    continue
                 for _ in range(rng.randint(1, 3)):
                     key = G.g_bytes(rng)
                     vals = [G.g_bytes(rng, big=True) for _ in range(rng.randint(1, 3))]
@@ -96,6 +114,10 @@ def gen_one(rng, it, K, KC, C):
                 if logical_from_parsed(got[k]["messages"]) != want[k]:
                     return "messages for %r differ: %r != %r" % (k, logical_from_parsed(got[k]["messages"])[:4],
                                                                  want[k][:4])
+                if k in want_ts:
+                    got_ts = [m["timestamp"] for m in R.flatten_messages(got[k]["messages"])]
+                    if got_ts != want_ts[k]:
+                        return "timestamps for %r differ: %r != %r" % (k, got_ts, want_ts[k])
                 for m in got[k]["messages"]:
                     if m["codec"] != codec:
                         return "codec attribute %d, requested %d" % (m["codec"], codec)
